@@ -1,29 +1,41 @@
 #!/usr/bin/env python3
-"""Writes MANIFEST.json from the table below (kept in one place so it is always valid)."""
-import json, os
+"""Writes MANIFEST.json: one check per tools/props/cXX.py that defines MANIFEST; every other
+property is listed under not_applicable with the reason from NOT_APPLICABLE below."""
+import importlib, json, os, sys
 V = os.path.dirname(os.path.dirname(os.path.abspath(__file__)))
-CHECKS = {}
-NA = {}
-def chk(pid, cat, text, note, technique, design):
-    CHECKS[pid] = dict(property_id=pid, quick_cmd="python3 tools/check.py %s --tier quick" % pid,
+sys.path.insert(0, os.path.join(V, "tools"))
+HOOK_COMMITS = [l.strip() for l in open(os.path.join(V, "tools", "hook_commits.txt")) if l.strip() and not l.startswith("#")] if os.path.exists(os.path.join(V, "tools", "hook_commits.txt")) else []
+NOT_APPLICABLE = {
+ "C15": "Voronoi tessellation validity of two ~2000-line floating-point geometric constructions: no executable Lean model of feasible size can express it (DESIGN.md §7); the amenable parts are claimed under C16/C17",
+}
+PENDING = "check not built yet in this revision (planned, see DESIGN.md §6); not claimed until the model, theorems and correspondence exist"
+checks, na = [], []
+for i in range(1, 21):
+    pid = "C%02d" % i
+    try:
+        mod = importlib.import_module("props." + pid.lower())
+        M = getattr(mod, "MANIFEST", None)
+    except ModuleNotFoundError:
+        M = None
+    if M is None or pid in NOT_APPLICABLE:
+        na.append(dict(property_id=pid, reason=NOT_APPLICABLE.get(pid, PENDING)))
+        continue
+    checks.append(dict(property_id=pid, quick_cmd="python3 tools/check.py %s --tier quick" % pid,
         thorough_cmd="python3 tools/check.py %s --tier thorough" % pid,
         evidence_file="/verif/evidence/%s.json" % pid,
         replay_cmd_template="python3 tools/check.py %s --replay {path}" % pid,
         engine="lean4-proof+correspondence",
-        level_claimed=dict(category=cat, text=text, design_ref=design), level_note=note, technique=technique)
-
-exec(open(os.path.join(V, "tools", "manifest_table.py")).read())
-
+        level_claimed=dict(category=M["category"], text=M["text"], design_ref=M.get("design", "DESIGN.md §6 " + pid)),
+        level_note=M["note"], technique=M["technique"]))
 m = dict(version=1,
-  setup_cmd="cd /verif/lean && lake build CMacVerif Driver && python3 /verif/tools/setup.py",
+  setup_cmd="python3 /verif/tools/setup.py",
   hooks=dict(guard="CMACIONIZE_VERIF",
      enable="harnesses: g++ -DCMACIONIZE_VERIF -I/repo/src ...; whole binary: cmake -S /repo -B /verif/.build/full -DCMAKE_CXX_FLAGS='-Wno-cpp -DCMACIONIZE_VERIF' (done by tools/vlib.py on every check)",
      baseline_off_cmd="cmake -G Ninja -S /repo -B /repo/_build && cmake --build /repo/_build -j16 && ctest --test-dir /repo/_build -j8 --timeout 900",
      source_commits=HOOK_COMMITS, add_only=True),
-  engines=[dict(name="lean4-proof+correspondence", path="/verif/tools/check.py", serves_properties=sorted(CHECKS),
+  engines=[dict(name="lean4-proof+correspondence", path="/verif/tools/check.py", serves_properties=[c["property_id"] for c in checks],
      kind_free_text="Lean 4 theorems about hand-written/generated models (lean/CMacVerif), axiom audit on every run, and a differential correspondence run of the same Lean definitions (compiled drivers) against the real C++ on generated inputs; property oracles evaluated on the implementation supply replays")],
-  checks=[CHECKS[k] for k in sorted(CHECKS)],
-  not_applicable=[dict(property_id=k, reason=NA[k]) for k in sorted(NA)],
+  checks=checks, not_applicable=na,
   notes="See DESIGN.md. known_findings.txt lists genuine defects (fixed: / finding:).")
 json.dump(m, open(os.path.join(V, "MANIFEST.json"), "w"), indent=1)
-print("wrote MANIFEST.json with", len(CHECKS), "checks,", len(NA), "not applicable")
+print("wrote MANIFEST.json with", len(checks), "checks,", len(na), "not applicable")
